@@ -953,3 +953,186 @@ Proof.
   - intros p Hp. rewrite B by lia. rewrite repeat_nth0, weight_unique. ring.
   - rewrite C, repeat_sum0, total_unique. ring.
 Qed.
+
+(* ---------- broadcasting of the Sampling fields ---------- *)
+Lemma prod_nonneg : forall s, all_nonneg s -> 0 <= prod s.
+Proof.
+  induction 1 as [|n s Hn _ IH]; [rewrite prod_nil; lia|rewrite prod_cons; lia].
+Qed.
+
+Lemma brel_nonneg : forall s t, Forall2 brel s t -> all_nonneg t -> all_nonneg s.
+Proof.
+  induction 1 as [|m n s t Hmn _ IH]; intros Ht; [constructor|].
+  inversion Ht; subst. constructor; [unfold brel in Hmn; lia|apply IH; assumption].
+Qed.
+
+Lemma chunks_length : forall (A : Type) k n (l : list A), length (chunks k n l) = n.
+Proof. induction n; intros; simpl; auto. Qed.
+
+Lemma chunks_each : forall (A : Type) k n (l : list A), length l = (n * k)%nat ->
+  Forall (fun c => length c = k) (chunks k n l).
+Proof.
+  induction n; intros l H; simpl; constructor.
+  - apply firstn_length_le. lia.
+  - apply IHn. rewrite skipn_length. lia.
+Qed.
+
+Lemma firstn_In : forall (A : Type) k (l : list A) x, In x (firstn k l) -> In x l.
+Proof. intros A k l x H. rewrite <- (firstn_skipn k l). apply in_or_app. auto. Qed.
+Lemma skipn_In : forall (A : Type) k (l : list A) x, In x (skipn k l) -> In x l.
+Proof. intros A k l x H. rewrite <- (firstn_skipn k l). apply in_or_app. auto. Qed.
+
+Lemma chunks_In : forall (A : Type) k n (l c : list A) x, In c (chunks k n l) -> In x c -> In x l.
+Proof.
+  induction n; intros l c x Hc Hx; simpl in Hc; [contradiction|].
+  destruct Hc as [<-|Hc]; [eapply firstn_In; eauto|].
+  eapply skipn_In. eapply IHn; eauto.
+Qed.
+
+Lemma flat_map_length_const : forall (A B : Type) (f : A -> list B) q cs,
+  Forall (fun c => length (f c) = q) cs -> length (flat_map f cs) = (length cs * q)%nat.
+Proof. induction 1; simpl; auto. rewrite app_length. lia. Qed.
+
+Lemma concat_repeat_length : forall (A : Type) (x : list A) n,
+  length (concat (repeat x n)) = (n * length x)%nat.
+Proof. induction n; simpl; auto. rewrite app_length. lia. Qed.
+
+Lemma bcast_length : forall (A : Type) s t, Forall2 brel s t -> all_nonneg t ->
+  forall d : list A, length d = Z.to_nat (prod s) -> length (bcast s t d) = Z.to_nat (prod t).
+Proof.
+  induction 1 as [|m n s t Hmn Hst IH]; intros Ht d Hd; [exact Hd|].
+  inversion Ht as [|? ? Hn Ht']; subst.
+  pose proof (prod_nonneg _ Ht') as Pt. pose proof (prod_nonneg _ (brel_nonneg _ _ Hst Ht')) as Ps.
+  rewrite prod_cons in *. simpl. destruct (m =? n) eqn:E.
+  - assert (m = n) by lia. subst m.
+    rewrite Z2Nat.inj_mul in Hd by lia. rewrite Z2Nat.inj_mul by lia.
+    rewrite (flat_map_length_const _ _ _ (Z.to_nat (prod t))).
+    + now rewrite chunks_length.
+    + pose proof (chunks_each _ _ _ _ Hd) as Hc.
+      eapply Forall_impl; [|exact Hc]. intros c Hlc. apply IH; auto.
+  - destruct Hmn as [->| ->]; [lia|].
+    rewrite concat_repeat_length, Z2Nat.inj_mul by lia. f_equal. apply IH; auto.
+    rewrite Hd. f_equal. lia.
+Qed.
+
+Lemma bcast_In : forall (A : Type) s t (d : list A) x, In x (bcast s t d) -> In x d.
+Proof.
+  induction s as [|m s IH]; intros t d x H; [exact H|].
+  destruct t as [|n t]; [exact H|]. simpl in H. destruct (m =? n).
+  - apply in_flat_map in H. destruct H as (c & Hc & Hx). eapply chunks_In; eauto.
+  - apply in_concat in H. destruct H as (c & Hc & Hx). apply repeat_spec in Hc. subst c. eauto.
+Qed.
+
+Lemma rev_repeat : forall (A : Type) (x : A) n, rev (repeat x n) = repeat x n.
+Proof.
+  induction n; simpl; auto. rewrite IHn. clear IHn.
+  induction n; simpl; auto. now rewrite IHn.
+Qed.
+
+Lemma Forall2_rev : forall (A B : Type) (R : A -> B -> Prop) l l',
+  Forall2 R l l' -> Forall2 R (rev l) (rev l').
+Proof. induction 1; simpl; [constructor|]. apply Forall2_app; auto. Qed.
+
+Lemma brel_repeat1 : forall r, Forall2 brel (repeat 1 (length r)) r.
+Proof. induction r; simpl; constructor; auto. now right. Qed.
+Lemma brel_refl : forall r, Forall2 brel r r.
+Proof. induction r; constructor; auto. now left. Qed.
+
+Lemma bdim_spec : forall a b c, bdim a b = Some c -> brel a c /\ brel b c /\ (0 <= a -> 0 <= b -> 0 <= c).
+Proof.
+  unfold bdim, brel. intros a b c H.
+  destruct (a =? b) eqn:E1; [inversion H; lia|].
+  destruct (a =? 1) eqn:E2; [inversion H; lia|].
+  destruct (b =? 1) eqn:E3; [inversion H; lia|discriminate].
+Qed.
+
+Lemma bshape_rev_spec : forall r1 r2 r, bshape_rev r1 r2 = Some r ->
+  (length r1 <= length r)%nat /\ (length r2 <= length r)%nat /\
+  Forall2 brel (r1 ++ repeat 1 (length r - length r1)) r /\
+  Forall2 brel (r2 ++ repeat 1 (length r - length r2)) r /\
+  (all_nonneg r1 -> all_nonneg r2 -> all_nonneg r).
+Proof.
+  induction r1 as [|a r1 IH]; intros r2 r H; simpl in H.
+  - inversion H; subst. simpl. rewrite Nat.sub_0_r, Nat.sub_diag, app_nil_r.
+    split; [lia|]. split; [lia|]. split; [apply brel_repeat1|]. split; [apply brel_refl|auto].
+  - destruct r2 as [|b r2].
+    + inversion H; subst. simpl length. rewrite Nat.sub_diag, app_nil_r, Nat.sub_0_r.
+      split; [lia|]. split; [simpl; lia|]. split; [apply brel_refl|]. split; [apply (brel_repeat1 (a :: r1))|auto].
+    + destruct (bdim a b) as [c|] eqn:Ed; [|discriminate].
+      destruct (bshape_rev r1 r2) as [r'|] eqn:Er; [|discriminate].
+      inversion H; subst. destruct (IH _ _ Er) as (L1 & L2 & F1 & F2 & N).
+      destruct (bdim_spec _ _ _ Ed) as (B1 & B2 & B3). simpl.
+      split; [lia|]. split; [lia|]. split; [constructor; auto|]. split; [constructor; auto|].
+      intros N1 N2. inversion N1; inversion N2; subst. constructor; [apply B3; assumption|apply N; assumption].
+Qed.
+
+Lemma bshape_spec : forall s1 s2 t, bshape s1 s2 = Some t ->
+  broadcasts_to s1 t /\ broadcasts_to s2 t /\ (all_nonneg s1 -> all_nonneg s2 -> all_nonneg t).
+Proof.
+  unfold bshape, broadcasts_to, pad. intros s1 s2 t H.
+  destruct (bshape_rev (rev s1) (rev s2)) as [r|] eqn:E; [|discriminate]. inversion H; subst. clear H.
+  destruct (bshape_rev_spec _ _ _ E) as (L1 & L2 & F1 & F2 & N). rewrite !rev_length in *.
+  split; [|split].
+  - apply Forall2_rev in F1. rewrite rev_app_distr, rev_repeat, rev_involutive in F1. exact F1.
+  - apply Forall2_rev in F2. rewrite rev_app_distr, rev_repeat, rev_involutive in F2. exact F2.
+  - intros N1 N2. apply Forall_rev. apply N; apply Forall_rev; auto.
+Qed.
+
+Lemma prod_repeat1 : forall n, prod (repeat 1 n) = 1.
+Proof. induction n; simpl; [apply prod_nil|]. rewrite prod_cons. lia. Qed.
+
+Lemma broadcast_to_length : forall (A : Type) s t (d : list A), broadcasts_to s t -> all_nonneg t ->
+  length d = Z.to_nat (prod s) -> length (broadcast_to s t d) = Z.to_nat (prod t).
+Proof.
+  unfold broadcast_to, broadcasts_to, pad. intros A s t d H Ht Hd. apply bcast_length; auto.
+  rewrite prod_app, prod_repeat1, Z.mul_1_l. exact Hd.
+Qed.
+
+Lemma broadcast_to_In : forall (A : Type) s t (d : list A) x, In x (broadcast_to s t d) -> In x d.
+Proof. unfold broadcast_to. intros. eapply bcast_In; eauto. Qed.
+
+Lemma collect_length : forall w os w' l, collect w os = Ok w' l -> length l = length os.
+Proof.
+  induction os as [|o os IH]; intros w' l H; simpl in H; [inversion H; auto|].
+  destruct o; [|discriminate]. destruct (collect w os) eqn:E; [|discriminate].
+  inversion H; subst. simpl. f_equal. eapply IH; eauto.
+Qed.
+
+Lemma run_points_length : forall x64 l pts w idx, run_points x64 l pts = Ok w idx -> length idx = length pts.
+Proof.
+  unfold run_points, p2i_many. intros. erewrite collect_length; eauto. now rewrite map_length.
+Qed.
+
+Lemma sampling_coverage_spec_l : forall x64 l theta phi pa t w idx cov,
+  well_formed theta -> well_formed phi -> all_nonneg pa ->
+  sampling_coverage x64 (inl l) theta phi pa = Coverage t w idx cov ->
+  bshape (f_shape theta) (f_shape phi) = Some t /\
+  length idx = Z.to_nat (prod t) /\
+  exists u, bshape t pa = Some u /\ 0 <= prod u /\
+    cov = get_coverage (len l) (broadcast_to t u idx) /\
+    length (broadcast_to t u idx) = Z.to_nat (prod u) /\
+    (0 <= len l -> Forall (fun i => 0 <= i < len l) idx ->
+       length cov = Z.to_nat (len l) /\ zsum cov = prod u /\
+       forall p, 0 <= p < len l ->
+         nth (Z.to_nat p) cov 0 = Z.of_nat (count_occ Z.eq_dec (broadcast_to t u idx) p)).
+Proof.
+  intros x64 l theta phi pa t w idx cov [Nt Lt] [Np Lp] Npa H. unfold sampling_coverage in H.
+  destruct (bshape (f_shape theta) (f_shape phi)) as [t'|] eqn:Eb; [|discriminate].
+  destruct (run_points _ _ _) as [w' idx'|] eqn:Er; [|discriminate].
+  destruct (bshape t' pa) as [u|] eqn:Eu; [|discriminate].
+  inversion H; subst. clear H.
+  destruct (bshape_spec _ _ _ Eb) as (B1 & B2 & N). specialize (N Nt Np).
+  destruct (bshape_spec _ _ _ Eu) as (B3 & _ & N'). specialize (N' N Npa).
+  apply run_points_length in Er. rewrite map_length, combine_length in Er.
+  rewrite !broadcast_to_length in Er by auto. rewrite Nat.min_id in Er.
+  split; [reflexivity|]. split; [exact Er|]. exists u.
+  pose proof (broadcast_to_length _ _ _ idx B3 N' Er) as Lb.
+  repeat split; auto using prod_nonneg.
+  - destruct (coverage_histogram_l (len l) (broadcast_to t u idx)) as (A1 & _ & _); auto.
+    apply Forall_forall. intros x Hx. apply broadcast_to_In in Hx. rewrite Forall_forall in H0. auto.
+  - destruct (coverage_histogram_l (len l) (broadcast_to t u idx)) as (_ & _ & A3); auto.
+    { apply Forall_forall. intros x Hx. apply broadcast_to_In in Hx. rewrite Forall_forall in H0. auto. }
+    rewrite A3, Lb. apply Z2Nat.id. now apply prod_nonneg.
+  - intros p Hp. destruct (coverage_histogram_l (len l) (broadcast_to t u idx)) as (_ & A2 & _); auto.
+    apply Forall_forall. intros x Hx. apply broadcast_to_In in Hx. rewrite Forall_forall in H0. auto.
+Qed.
